@@ -1,6 +1,6 @@
 (** Properties/C02.v — Every mistake in the input is reported, exactly once, in a single pass.
     Statements only; one level of a derived parser, for every item list (see C01.v). *)
-From DarlingModel Require Import Run.Recv Run.RecvProofs Run.LoopProofs Run.LevelProofs Err.ErrTree Spec.C01 Run.SpecSound Run.SpecComplete Run.TotalProofs.
+From DarlingModel Require Import Run.Recv Run.RecvProofs Run.LoopProofs Run.LevelProofs Err.ErrTree Spec.C01 Run.SpecSound Run.SpecComplete Run.SpecCount Run.TotalProofs Err.ErrProofs.
 Local Open Scope list_scope.
 
 (** Pushing an error never loses the ones recorded before it. *)
@@ -79,6 +79,37 @@ Proof.
     exfalso. apply (H v). now apply (P v M).
 Qed.
 
+(** THE PROPERTY, for the model: every mistake is reported exactly once.  For every receiver type
+    of any depth meeting [kwf] (what derive time and Rust guarantee, no [darling::Result] field,
+    default functions that return) and every meta item: the error the generated parser returns
+    has exactly [mistakes t m] leaves - the number of mistakes the per-field specification counts
+    in the input (literal items, unaddressed names, repeats, missing required items, and
+    recursively the mistakes inside each value), never more, never fewer, at least one - and it
+    returns a value only when that number is zero.  Errors of library leaves and user callables
+    are assumed proper (at least one leaf; C04 shows an empty bundle cannot be built). *)
+Theorem C02_every_mistake_reported_exactly_once :
+  forall pf reparse reparse_arr reparse_preds sugg sim interp_with interp_fn,
+    (forall w it e, interp_with w it = Err e -> (0 < len e)%N) ->
+    (forall g v e, interp_fn g v = Err e -> (0 < len e)%N) ->
+    (forall tg m e, from_meta (leaf_fm pf reparse reparse_arr reparse_preds tg) m = Err e -> (0 < len e)%N) ->
+    forall t, kwf interp_fn t ->
+      forall m, is_meta m = true ->
+        match from_meta (impl_of pf reparse reparse_arr reparse_preds sugg sim interp_with interp_fn t) m with
+        | Err e => len e = mistakes pf reparse reparse_arr reparse_preds interp_with interp_fn t m /\ (0 < len e)%N
+        | Ok _ => mistakes pf reparse reparse_arr reparse_preds interp_with interp_fn t m = 0%N
+        | Panic _ => True
+        end.
+Proof. exact mistakes_count. Qed.
+
+(** [len] is the number of leaves the flattened error has (C04), so the count above is the
+    number of diagnostics the user sees. *)
+Theorem C02_len_counts_leaves : forall e pre inh, len e = N.of_nat (List.length (leaves pre inh e)).
+Proof. exact ErrProofs.len_leaves. Qed.
+
+Theorem C02_executable_hypotheses_are_sound :
+  forall interp_fn t, kwfb interp_fn t = true -> kwf interp_fn t.
+Proof. exact kwfb_sound. Qed.
+
 Print Assumptions C02_push_keeps_earlier_errors.
 Print Assumptions C02_level_returns_all_errors.
 Print Assumptions C02_errors_are_per_item_contributions.
@@ -86,3 +117,5 @@ Print Assumptions C02_one_error_per_mistaken_item.
 Print Assumptions C02_errors_in_input_order.
 Print Assumptions C02_loop_never_returns_early.
 Print Assumptions C02_fails_exactly_on_mistaken_inputs.
+Print Assumptions C02_every_mistake_reported_exactly_once.
+Print Assumptions C02_executable_hypotheses_are_sound.
